@@ -363,11 +363,11 @@ Lemma C_len st k : wf st -> k < length (seqs st) -> length (C st k) = length (of
 Proof. apply C_length. Qed.
 
 (* growth never creates sharing (from C15_links_growth) *)
-Lemma grow_no_new_sharing st o i : reachable st -> grows o i -> i < length (seqs st) ->
+Lemma grow_no_new_sharing st o i : wf st -> grows o i -> i < length (seqs st) ->
   no_new_sharing i (absS st) (absS (fst (step st o))).
 Proof.
-  intros Rch G Hi. pose proof (reachable_wf st Rch) as W.
-  pose proof (reachable_wf _ (reachable_step st o Rch)) as W'.
+  intros Rch G Hi. pose proof (ok_wf st Rch) as W.
+  pose proof (ok_wf _ (ok_step st o Rch)) as W'.
   destruct (grow_links st o i Rch G Hi) as (_ & GL). cbv zeta in GL.
   set (st' := fst (step st o)) in *.
   assert (LEN : length (seqs st') = length (seqs st)).
@@ -423,7 +423,7 @@ Proof.
   unfold mk_cache. rewrite seqs_len_resize, seqs_len_set_cache. rewrite seqs_len_detach. auto.
 Qed.
 
-Lemma grow_len st o i : reachable st -> grows o i -> length (seqs (fst (step st o))) = length (seqs st).
+Lemma grow_len st o i : wf st -> grows o i -> length (seqs (fst (step st o))) = length (seqs st).
 Proof.
   intros _ G. destruct o; simpl in G; try tauto; subst; simpl;
     repeat match goal with |- context [if ?c then _ else _] => destruct c end;
@@ -431,7 +431,7 @@ Proof.
     auto using seqs_len_do_append, seqs_len_finalize, seqs_len_extend, seqs_len_extend_gen.
 Qed.
 
-Lemma abs_grown st o i vis' p' : reachable st -> grows o i -> i < length (seqs st) ->
+Lemma abs_grown st o i vis' p' : wf st -> grows o i -> i < length (seqs st) ->
   live (getseq (fst (step st o)) i) = live (getseq st i) ->
   C (fst (step st o)) i = vis' -> pend (fst (step st o)) i = p' ->
   grown i vis' p' (absS st) (absS (fst (step st o))).
@@ -472,10 +472,10 @@ Qed.
 (* ---------------------------------------------------------------- per operation: growth *)
 Ltac dead_case L := simpl; rewrite L; simpl; split; [reflexivity|apply abs_unchanged_refl].
 
-Lemma sim_append st i bpr e cb : reachable st ->
+Lemma sim_append st i bpr e cb : wf st ->
   spec_rel (absS st) (OAppend i bpr e cb) (absS (fst (step st (OAppend i bpr e cb)))) (snd (step st (OAppend i bpr e cb))).
 Proof.
-  intros R. pose proof (reachable_wf st R) as W. cbn [spec_rel]. rewrite abs_alive.
+  intros R. pose proof (ok_wf st R) as W. cbn [spec_rel]. rewrite abs_alive.
   destruct (is_live st i) eqn:L; [|dead_case L].
   pose proof (is_live_lt _ _ L) as Hi.
   split; [simpl; rewrite L; reflexivity|].
@@ -492,7 +492,7 @@ Proof.
     { destruct cb; [right; auto|left]. simpl in EC. destruct (scache (getseq st i)); congruence. }
     apply (abs_grown st (OAppend i bpr e cb) i _ _ R eq_refl Hi); [rewrite ST; exact LV|apply C2; auto|].
     rewrite ST in *. rewrite pend_some by (apply N2; auto). f_equal.
-    pose proof (reachable_wf _ (reachable_step st (OAppend i bpr e cb) R)) as W'. rewrite ST in W'.
+    pose proof (ok_wf _ (ok_step st (OAppend i bpr e cb) R)) as W'. rewrite ST in W'.
     assert (Hi' : i < length (seqs (do_append st i bpr e cb))) by (rewrite seqs_len_do_append; auto).
     pose proof (F_split _ i W' Hi') as S'. pose proof (F_split st i W Hi) as S0.
     rewrite FU, S0 in S'. simpl in S'. rewrite (C2 HC) in S'. rewrite <- app_assoc in S'.
@@ -503,10 +503,10 @@ Proof.
     rewrite ST. apply pend_none. apply N1; auto.
 Qed.
 
-Lemma sim_finalize st i : reachable st ->
+Lemma sim_finalize st i : wf st ->
   spec_rel (absS st) (OFinalize i) (absS (fst (step st (OFinalize i)))) (snd (step st (OFinalize i))).
 Proof.
-  intros R. pose proof (reachable_wf st R) as W. cbn [spec_rel]. rewrite abs_alive.
+  intros R. pose proof (ok_wf st R) as W. cbn [spec_rel]. rewrite abs_alive.
   destruct (is_live st i) eqn:L; [|dead_case L].
   pose proof (is_live_lt _ _ L) as Hi.
   split; [simpl; rewrite L; reflexivity|].
@@ -519,13 +519,13 @@ Proof.
   - rewrite ST. unfold finalize. rewrite Ec. apply abs_unchanged_refl.
 Qed.
 
-Lemma sim_extend_gen st i bpr pre els f x o : reachable st -> grows o i -> is_live st i = true ->
+Lemma sim_extend_gen st i bpr pre els f x o : wf st -> grows o i -> is_live st i = true ->
   fst (step st o) = extend_gen st i bpr pre els f x ->
   pre && (match els with [] => true | _ => false end) = false ->
   grown i (spec_extend (if pre then conts (absS st) i else conts (absS st) i ++ pl (absS st) i) els) None
         (absS st) (absS (fst (step st o))).
 Proof.
-  intros R G L ST HC. pose proof (reachable_wf st R) as W. pose proof (is_live_lt _ _ L) as Hi.
+  intros R G L ST HC. pose proof (ok_wf st R) as W. pose proof (is_live_lt _ _ L) as Hi.
   destruct (extend_gen_spec st i bpr pre els f x W Hi) as (_ & _ & CT & _ & LV).
   rewrite abs_conts, pl_abs by auto.
   apply (abs_grown st o i _ _ R G Hi); rewrite ST.
@@ -534,7 +534,7 @@ Proof.
   - apply pend_none. apply extend_gen_scache; auto.
 Qed.
 
-Lemma sim_extend st i bpr pre els : reachable st ->
+Lemma sim_extend st i bpr pre els : wf st ->
   spec_rel (absS st) (OExtend i bpr pre els) (absS (fst (step st (OExtend i bpr pre els)))) (snd (step st (OExtend i bpr pre els))).
 Proof.
   intros R. cbn [spec_rel]. rewrite abs_alive.
@@ -545,10 +545,10 @@ Proof.
   - apply (sim_extend_gen st i bpr pre els false 0); auto; [reflexivity|simpl; rewrite L; reflexivity].
 Qed.
 
-Lemma sim_extend_seq st i bpr j : reachable st ->
+Lemma sim_extend_seq st i bpr j : wf st ->
   spec_rel (absS st) (OExtendSeq i bpr j) (absS (fst (step st (OExtendSeq i bpr j)))) (snd (step st (OExtendSeq i bpr j))).
 Proof.
-  intros R. pose proof (reachable_wf st R) as W. cbn [spec_rel]. rewrite !abs_alive.
+  intros R. pose proof (ok_wf st R) as W. cbn [spec_rel]. rewrite !abs_alive.
   destruct (is_live st i && is_live st j) eqn:L; [|dead_case L].
   apply andb_prop in L. destruct L as (L & Lj). pose proof (is_live_lt _ _ Lj) as Hj.
   split; [simpl; rewrite L, Lj; reflexivity|].
@@ -563,11 +563,11 @@ Proof.
     + rewrite EC. reflexivity.
 Qed.
 
-Lemma sim_extend_bad st i bpr pre good extra : reachable st ->
+Lemma sim_extend_bad st i bpr pre good extra : wf st ->
   spec_rel (absS st) (OExtendBad i bpr pre good extra) (absS (fst (step st (OExtendBad i bpr pre good extra))))
            (snd (step st (OExtendBad i bpr pre good extra))).
 Proof.
-  intros R. pose proof (reachable_wf st R) as W. cbn [spec_rel]. rewrite abs_alive.
+  intros R. pose proof (ok_wf st R) as W. cbn [spec_rel]. rewrite abs_alive.
   destruct (is_live st i) eqn:L; [|dead_case L].
   pose proof (is_live_lt _ _ L) as Hi. rewrite (abs_shapeless st i W Hi).
   destruct pre.
@@ -583,17 +583,17 @@ Proof.
 Qed.
 
 (* ---------------------------------------------------------------- per operation: refusals, reads, drop, shrink *)
-Lemma sim_append_bad st i : reachable st ->
+Lemma sim_append_bad st i : wf st ->
   spec_rel (absS st) (OAppendBad i) (absS (fst (step st (OAppendBad i)))) (snd (step st (OAppendBad i))).
 Proof.
-  intros R. pose proof (reachable_wf st R) as W. cbn [spec_rel]. rewrite abs_alive.
+  intros R. pose proof (ok_wf st R) as W. cbn [spec_rel]. rewrite abs_alive.
   destruct (append_bad_nothing st i) as (E & _). rewrite E. split; [apply abs_unchanged_refl|].
   simpl. destruct (is_live st i) eqn:L; [|reflexivity].
   rewrite (abs_shapeless st i W (is_live_lt _ _ L)).
   destruct (offs (getseq st i)), (scache (getseq st i)); reflexivity.
 Qed.
 
-Lemma sim_get_int st i k : reachable st ->
+Lemma sim_get_int st i k : wf st ->
   spec_rel (absS st) (OGetInt i k) (absS (fst (step st (OGetInt i k)))) (snd (step st (OGetInt i k))).
 Proof.
   intros R. cbn [spec_rel]. rewrite abs_alive.
@@ -603,10 +603,10 @@ Proof.
   - simpl. rewrite L. split; [apply abs_unchanged_refl|reflexivity].
 Qed.
 
-Lemma sim_shrink st i : reachable st ->
+Lemma sim_shrink st i : wf st ->
   spec_rel (absS st) (OShrink i) (absS (fst (step st (OShrink i)))) (snd (step st (OShrink i))).
 Proof.
-  intros R. pose proof (reachable_wf st R) as W. cbn [spec_rel]. rewrite abs_alive.
+  intros R. pose proof (ok_wf st R) as W. cbn [spec_rel]. rewrite abs_alive.
   destruct (is_live st i) eqn:L; [|simpl; rewrite L; split; [apply abs_unchanged_refl|reflexivity]].
   pose proof (is_live_lt _ _ L) as Hi. rewrite abs_pend by auto. unfold pend.
   destruct (scache (getseq st i)) as [c|] eqn:Ec.
@@ -630,7 +630,7 @@ Proof.
     apply (store_from_C st st' k (ids_getseq _ _ _ (getseq_seqs_eq st st' k ES)) (HC k Hk) c Hin).
 Qed.
 
-Lemma sim_drop st i : reachable st ->
+Lemma sim_drop st i : wf st ->
   spec_rel (absS st) (ODrop i) (absS (fst (step st (ODrop i)))) (snd (step st (ODrop i))).
 Proof.
   intros R. cbn [spec_rel]. rewrite abs_alive.
@@ -705,10 +705,10 @@ Proof.
   - unfold absO. rewrite HV, HI, (pend_none _ _ HS). reflexivity.
 Qed.
 
-Lemma sim_get_idx st i ix : reachable st ->
+Lemma sim_get_idx st i ix : wf st ->
   spec_rel (absS st) (OGetIdx i ix) (absS (fst (step st (OGetIdx i ix)))) (snd (step st (OGetIdx i ix))).
 Proof.
-  intros R. pose proof (reachable_wf st R) as W. cbn [spec_rel]. rewrite abs_alive.
+  intros R. pose proof (ok_wf st R) as W. cbn [spec_rel]. rewrite abs_alive.
   destruct (is_live st i) eqn:L; [|dead_case L].
   pose proof (is_live_lt _ _ L) as Hi. rewrite abs_conts by auto.
   pose proof (own_get_idx st i ix R L) as G. cbv zeta in G.
@@ -732,14 +732,14 @@ Proof.
   - destruct G as (Hr & E). rewrite E. split; [exact Hr|apply abs_unchanged_refl].
 Qed.
 
-Lemma sim_get_cols st i ix : reachable st ->
+Lemma sim_get_cols st i ix : wf st ->
   spec_rel (absS st) (OGetCols i ix) (absS (fst (step st (OGetCols i ix)))) (snd (step st (OGetCols i ix))).
 Proof. intros R. rewrite get_cols_is_getitem. apply (sim_get_idx st i ix R). Qed.
 
-Lemma sim_view st i bytes : reachable st ->
+Lemma sim_view st i bytes : wf st ->
   spec_rel (absS st) (OView i bytes) (absS (fst (step st (OView i bytes)))) (snd (step st (OView i bytes))).
 Proof.
-  intros R. pose proof (reachable_wf st R) as W. cbn [spec_rel]. rewrite abs_alive.
+  intros R. pose proof (ok_wf st R) as W. cbn [spec_rel]. rewrite abs_alive.
   destruct (is_live st i) eqn:L; [|dead_case L].
   pose proof (is_live_lt _ _ L) as Hi.
   destruct (own_view st i bytes R L) as (_ & K & _). cbv zeta in K.
@@ -755,10 +755,10 @@ Proof.
   - rewrite abs_obj by auto. unfold absO. cbn [a_ids]. unfold ids. rewrite GN. reflexivity.
 Qed.
 
-Lemma sim_copy st i : reachable st ->
+Lemma sim_copy st i : wf st ->
   spec_rel (absS st) (OCopy i) (absS (fst (step st (OCopy i)))) (snd (step st (OCopy i))).
 Proof.
-  intros R. pose proof (reachable_wf st R) as W. cbn [spec_rel]. rewrite abs_alive.
+  intros R. pose proof (ok_wf st R) as W. cbn [spec_rel]. rewrite abs_alive.
   destruct (is_live st i) eqn:L; [|dead_case L].
   pose proof (is_live_lt _ _ L) as Hi. rewrite abs_conts by auto.
   destruct (copy_total st i R L) as (Hr & HC & K & _). cbv zeta in *.
@@ -772,10 +772,10 @@ Proof.
   - rewrite G1. simpl. lia.
 Qed.
 
-Lemma sim_deep_copy st i : reachable st ->
+Lemma sim_deep_copy st i : wf st ->
   spec_rel (absS st) (ODeepCopy i) (absS (fst (step st (ODeepCopy i)))) (snd (step st (ODeepCopy i))).
 Proof.
-  intros R. pose proof (reachable_wf st R) as W. cbn [spec_rel]. rewrite abs_alive.
+  intros R. pose proof (ok_wf st R) as W. cbn [spec_rel]. rewrite abs_alive.
   destruct (is_live st i) eqn:L; [|dead_case L].
   pose proof (is_live_lt _ _ L) as Hi. rewrite abs_conts, abs_pend by auto.
   destruct (deep_copy_spec st i R L) as (Hr & _ & L1 & Ln & HC & K & HF). cbv zeta in *.
@@ -860,10 +860,10 @@ Proof.
   split; intros E; rewrite E in CL; simpl in CL; [destruct (offs (getseq st i))|destruct (C st i)]; auto; discriminate.
 Qed.
 
-Lemma sim_op_copy st i f dt : reachable st ->
+Lemma sim_op_copy st i f dt : wf st ->
   spec_rel (absS st) (OOp i f false dt) (absS (fst (step st (OOp i f false dt)))) (snd (step st (OOp i f false dt))).
 Proof.
-  intros R. pose proof (reachable_wf st R) as W. cbn [spec_rel]. rewrite abs_alive.
+  intros R. pose proof (ok_wf st R) as W. cbn [spec_rel]. rewrite abs_alive.
   destruct (is_live st i) eqn:L; [|dead_case L].
   pose proof (is_live_lt _ _ L) as Hi. rewrite abs_conts by auto.
   destruct (C st i) as [|c0 cs] eqn:EC.
@@ -881,10 +881,10 @@ Proof.
     pose proof (elems_of_compact (C st i) [] []) as E. simpl in E. rewrite app_nil_r in E. exact E.
 Qed.
 
-Lemma sim_op_seq_copy st i g j dt : reachable st ->
+Lemma sim_op_seq_copy st i g j dt : wf st ->
   spec_rel (absS st) (OOpSeq i g j false dt) (absS (fst (step st (OOpSeq i g j false dt)))) (snd (step st (OOpSeq i g j false dt))).
 Proof.
-  intros R. pose proof (reachable_wf st R) as W. cbn [spec_rel]. rewrite !abs_alive.
+  intros R. pose proof (ok_wf st R) as W. cbn [spec_rel]. rewrite !abs_alive.
   destruct (is_live st i && is_live st j) eqn:L; [|dead_case L].
   apply andb_prop in L. destruct L as (L & Lj).
   pose proof (is_live_lt _ _ L) as Hi. pose proof (is_live_lt _ _ Lj) as Hj.
@@ -918,10 +918,10 @@ Qed.
 Lemma forallb_alive st js : forallb (alive (absS st)) js = forallb (is_live st) js.
 Proof. induction js; simpl; auto. rewrite abs_alive, IHjs. reflexivity. Qed.
 
-Lemma sim_concat1 st js : reachable st ->
+Lemma sim_concat1 st js : wf st ->
   spec_rel (absS st) (OConcat1 js) (absS (fst (step st (OConcat1 js)))) (snd (step st (OConcat1 js))).
 Proof.
-  intros R. pose proof (reachable_wf st R) as W. cbn [spec_rel].
+  intros R. pose proof (ok_wf st R) as W. cbn [spec_rel].
   destruct js as [|j0 js]; [simpl; split; [reflexivity|apply abs_unchanged_refl]|].
   rewrite forallb_alive. unfold step.
   destruct (forallb (is_live st) (j0 :: js)) eqn:L; [|cbn [fst snd]; split; [reflexivity|apply abs_unchanged_refl]].
@@ -941,10 +941,10 @@ Proof.
   apply (copy_set_added st j0 false (zip_rows rs) _ W H0). reflexivity.
 Qed.
 
-Lemma sim_new st bytes bpr pre els : reachable st ->
+Lemma sim_new st bytes bpr pre els : wf st ->
   spec_rel (absS st) (ONew bytes bpr pre els) (absS (fst (step st (ONew bytes bpr pre els)))) (snd (step st (ONew bytes bpr pre els))).
 Proof.
-  intros R. pose proof (reachable_wf st R) as W. cbn [spec_rel]. split; [reflexivity|].
+  intros R. pose proof (ok_wf st R) as W. cbn [spec_rel]. split; [reflexivity|].
   cbn [step fst].
   set (s0 := mkSeq (length (heap st)) [] [] false bytes None true).
   set (st1 := mkSt (heap st ++ [empty_buf]) (seqs st ++ [s0])).
@@ -1003,10 +1003,10 @@ Lemma forallb_alive_fst st (js : list (nat * Z)) :
   forallb (fun p => alive (absS st) (fst p)) js = forallb (fun p => is_live st (fst p)) js.
 Proof. induction js; simpl; auto. rewrite abs_alive, IHjs. reflexivity. Qed.
 
-Lemma sim_concat st js : reachable st ->
+Lemma sim_concat st js : wf st ->
   spec_rel (absS st) (OConcat js) (absS (fst (step st (OConcat js)))) (snd (step st (OConcat js))).
 Proof.
-  intros R. pose proof (reachable_wf st R) as W. cbn [spec_rel].
+  intros R. pose proof (ok_wf st R) as W. cbn [spec_rel].
   destruct js as [|(j0, b0) rest]; [simpl; split; [reflexivity|apply abs_unchanged_refl]|].
   rewrite forallb_alive_fst. unfold step.
   destruct (forallb (fun p => is_live st (fst p)) ((j0, b0) :: rest)) eqn:L;
@@ -1061,10 +1061,10 @@ Proof.
     + exact IH.
 Qed.
 
-Lemma sim_op_inplace st i f dt : reachable st ->
+Lemma sim_op_inplace st i f dt : wf st ->
   spec_rel (absS st) (OOp i f true dt) (absS (fst (step st (OOp i f true dt)))) (snd (step st (OOp i f true dt))).
 Proof.
-  intros R. pose proof (reachable_wf st R) as W. cbn [spec_rel]. rewrite abs_alive.
+  intros R. pose proof (ok_wf st R) as W. cbn [spec_rel]. rewrite abs_alive.
   destruct (is_live st i) eqn:L; [|dead_case L].
   pose proof (is_live_lt _ _ L) as Hi. rewrite abs_conts by auto.
   destruct (C st i) as [|c0 cs] eqn:EC.
@@ -1072,7 +1072,7 @@ Proof.
   - assert (NE : offs (getseq st i) <> []) by (intros E; apply (conts_nil st i W Hi) in E; congruence).
     destruct (inplace_cells st i f dt R L NE) as (Hr & ES & HV). cbv zeta in *.
     split; [exact Hr|].
-    pose proof (reachable_wf _ (reachable_step st (OOp i f true dt) R)) as W'.
+    pose proof (ok_wf _ (ok_step st (OOp i f true dt) R)) as W'.
     apply abs_written; auto.
     + apply (write_pend st (OOp i f true dt) W eq_refl).
     + intros j q Hj Hq. rewrite (HV j q Hj Hq). rewrite abs_obj by auto. unfold absO. cbn [a_ids a_store absS].
@@ -1090,17 +1090,17 @@ Qed.
 Lemma cid_is_cell st j q b c : cid_eqb (sbuf (getseq st j), cell st j q) (b, c) = is_cell st j q b c.
 Proof. reflexivity. Qed.
 
-Lemma sim_set_int st i k v : reachable st ->
+Lemma sim_set_int st i k v : wf st ->
   spec_rel (absS st) (OSetInt i k v) (absS (fst (step st (OSetInt i k v)))) (snd (step st (OSetInt i k v))).
 Proof.
-  intros R. pose proof (reachable_wf st R) as W. cbn [spec_rel]. rewrite abs_alive.
+  intros R. pose proof (ok_wf st R) as W. cbn [spec_rel]. rewrite abs_alive.
   destruct (is_live st i) eqn:L; [|dead_case L].
   pose proof (is_live_lt _ _ L) as Hi. rewrite abs_conts, (C_len st i W Hi) by auto.
   pose proof (set_int_cells st i k v R L) as G. cbv zeta in G.
   destruct (norm_index (Z.of_nat (length (offs (getseq st i)))) k) as [p|e] eqn:N.
   - destruct G as (Hr & ES & HV). pose proof (norm_index_lt _ _ _ N) as Hp.
     split; [exact Hr|].
-    pose proof (reachable_wf _ (reachable_step st (OSetInt i k v) R)) as W'.
+    pose proof (ok_wf _ (ok_step st (OSetInt i k v) R)) as W'.
     rewrite abs_obj by auto. unfold absO. cbn [a_ids a_store absS]. rewrite (ids_nth st i p W Hi Hp).
     apply abs_written; auto.
     + apply (write_pend st (OSetInt i k v) W eq_refl).
@@ -1117,10 +1117,10 @@ Proof.
   destruct vs as [|x [|y vs]]; reflexivity.
 Qed.
 
-Lemma sim_set_int_rows st i k vs : reachable st ->
+Lemma sim_set_int_rows st i k vs : wf st ->
   spec_rel (absS st) (OSetIntRows i k vs) (absS (fst (step st (OSetIntRows i k vs)))) (snd (step st (OSetIntRows i k vs))).
 Proof.
-  intros R. pose proof (reachable_wf st R) as W. cbn [spec_rel]. rewrite abs_alive.
+  intros R. pose proof (ok_wf st R) as W. cbn [spec_rel]. rewrite abs_alive.
   destruct (is_live st i) eqn:L; [|dead_case L].
   pose proof (is_live_lt _ _ L) as Hi. rewrite abs_conts, (C_len st i W Hi) by auto.
   pose proof (set_int_rows_cells st i k vs R L) as G. cbv zeta in G.
@@ -1130,7 +1130,7 @@ Proof.
     rewrite (store_len st i p W Hi Hp), rows_assigned_cases.
     destruct ((length vs =? snd (cell st i p)) || (length vs =? 1)).
     + destruct G as (Hr & ES & HV). split; [exact Hr|].
-      pose proof (reachable_wf _ (reachable_step st (OSetIntRows i k vs) R)) as W'.
+      pose proof (ok_wf _ (ok_step st (OSetIntRows i k vs) R)) as W'.
       apply abs_written; auto.
       * apply (write_pend st (OSetIntRows i k vs) W eq_refl).
       * intros j q Hj Hq. rewrite (HV j q Hj Hq). rewrite cid_is_cell. rewrite (store_V st j q W Hj Hq). reflexivity.
@@ -1205,16 +1205,16 @@ Proof. induction l; simpl; [destruct b; reflexivity|]. rewrite IHl. destruct b, 
 Lemma existsb_map {A B} (f : B -> bool) (g : A -> B) l : existsb f (map g l) = existsb (fun x => f (g x)) l.
 Proof. induction l; simpl; auto. rewrite IHl. reflexivity. Qed.
 
-Lemma sim_set_idx st i ix v : reachable st ->
+Lemma sim_set_idx st i ix v : wf st ->
   spec_rel (absS st) (OSetIdx i ix v) (absS (fst (step st (OSetIdx i ix v)))) (snd (step st (OSetIdx i ix v))).
 Proof.
-  intros R. pose proof (reachable_wf st R) as W. cbn [spec_rel]. rewrite abs_alive.
+  intros R. pose proof (ok_wf st R) as W. cbn [spec_rel]. rewrite abs_alive.
   destruct (is_live st i) eqn:L; [|dead_case L].
   pose proof (is_live_lt _ _ L) as Hi. rewrite abs_conts, (C_len st i W Hi) by auto.
   destruct (positions (length (offs (getseq st i))) ix) as [ps|e] eqn:P;
     [|unfold step; rewrite L, P; cbn [fst snd]; split; [reflexivity|apply abs_unchanged_refl]].
   pose proof (positions_bound _ _ _ P) as PB.
-  pose proof (reachable_wf _ (reachable_step st (OSetIdx i ix v) R)) as W'.
+  pose proof (ok_wf _ (ok_step st (OSetIdx i ix v) R)) as W'.
   rewrite (abs_obj st i Hi). change (a_ids (absO st i)) with (ids st i).
   destruct v as [x|j].
   - (* scalar *)
@@ -1250,10 +1250,10 @@ Proof.
     split; [rewrite A; exact Hr|exact B].
 Qed.
 
-Lemma sim_op_seq_inplace st i g j dt : reachable st ->
+Lemma sim_op_seq_inplace st i g j dt : wf st ->
   spec_rel (absS st) (OOpSeq i g j true dt) (absS (fst (step st (OOpSeq i g j true dt)))) (snd (step st (OOpSeq i g j true dt))).
 Proof.
-  intros R. pose proof (reachable_wf st R) as W. cbn [spec_rel]. rewrite !abs_alive.
+  intros R. pose proof (ok_wf st R) as W. cbn [spec_rel]. rewrite !abs_alive.
   destruct (is_live st i && is_live st j) eqn:L; [|dead_case L].
   apply andb_prop in L. destruct L as (L & Lj).
   pose proof (is_live_lt _ _ L) as Hi. pose proof (is_live_lt _ _ Lj) as Hj.
@@ -1275,7 +1275,7 @@ Proof.
     rewrite EO. cbn [fst snd]. split; [reflexivity|apply abs_unchanged_refl].
   - assert (NE : offs (getseq st i) <> []) by (intros E; apply CN in E; congruence).
     destruct (op_seq_inplace_full st i g j dt R L Lj ltac:(lia) E2 NE) as (Hr & ES & HV). cbv zeta in *.
-    pose proof (reachable_wf _ (reachable_step st (OOpSeq i g j true dt) R)) as W'.
+    pose proof (ok_wf _ (ok_step st (OOpSeq i g j true dt) R)) as W'.
     rewrite (abs_obj st i Hi), (abs_obj st j Hj). unfold absO. cbn [a_ids a_store absS].
     destruct (written_from_loop st _ i (h_op (apply_fn2 g)) (pairs (getseq st i)) j W W' Hi ES
                 (proj2 (write_pend st (OOpSeq i g j true dt) W eq_refl)) HV) as (A & B). cbv zeta in *.
@@ -1284,7 +1284,7 @@ Proof.
 Qed.
 
 (* ---------------------------------------------------------------- the theorem *)
-Theorem simulation_all st o : reachable st ->
+Theorem simulation_all st o : wf st ->
   spec_rel (absS st) o (absS (fst (step st o))) (snd (step st o)).
 Proof.
   intros R. destruct o.
@@ -1326,12 +1326,12 @@ Proof. reflexivity. Qed.
 
 (* for EVERY history: the implementation model's abstraction is reached by a run of the list-of-arrays
    machine with the same outputs; and what an object shows (C) is what that abstract state holds *)
-Theorem histories_list_model ops : forall st, reachable st ->
+Theorem histories_list_model ops : forall st, wf st ->
   arun (absS st) ops (absS (exec st ops)) (results st ops) /\
   forall k, k < length (seqs (exec st ops)) -> conts (absS (exec st ops)) k = C (exec st ops) k.
 Proof.
   induction ops as [|o ops IH]; intros st R.
   - split; [constructor|intros; apply abs_conts; auto].
-  - rewrite exec_cons. destruct (IH _ (reachable_step st o R)) as (A & B). split; [|exact B].
+  - rewrite exec_cons. destruct (IH _ (ok_step st o R)) as (A & B). split; [|exact B].
     cbn [results]. econstructor; [apply simulation_all; auto|exact A].
 Qed.
